@@ -385,7 +385,7 @@ func runScript(sc *Scenario, ro runOpts) *runResult {
 		}
 		// reach probes: which kind of call left the state that the next call on the same Regexp reused
 		last := map[int]string{}
-		for i := range rr.Records[0] {
+		for i := 0; len(rr.Records) > 0 && i < len(rr.Records[0]); i++ {
 			r := &rr.Records[0][i]
 			op := &sc.Clients[0].Ops[i]
 			if !r.Done || isSilentOp(op.Kind) {
